@@ -61,6 +61,9 @@ func TestC03(t *testing.T) {
 		"NotifySyncCompleted must be preceded by a successful device Sync since NotifySyncStarting; " +
 		"a case is non-trivial when >= 2 uploads were acknowledged and it has >= 12 steps")
 
+	if name, script := run.ReplayScript(); script != nil && psx.ReplayRoundTrip(run, name, script) {
+		return
+	}
 	if name, script := run.ReplayScript(); script != nil {
 		r := psx.Replay(run, model, name, script)
 		if r != nil {
@@ -76,7 +79,16 @@ func TestC03(t *testing.T) {
 		return
 	}
 	for name, script := range run.CorpusScripts() {
+		if psx.ReplayRoundTrip(run, "corpus/"+name, script) {
+			continue
+		}
 		psx.Replay(run, model, "corpus/"+name, script)
+	}
+	// what was committed is what a restart reads: the real state store, states of a few bytes up to
+	// several hundred KiB (long histories without rotation, many blocks), process exit and power loss
+	for i, k := 0, run.Scale(60, 600); i < k && run.Findings() < 10; i++ {
+		line, _ := psx.RandomRoundTrip(run, fmt.Sprintf("seed%d/roundtrip%d", run.Seed, i), hx.NewRand(run.Seed, "C03-roundtrip", i))
+		run.Case([]string{line}, true, false)
 	}
 	n := run.Scale(800, 8000)
 	for i := 0; i < n && run.Findings() < 10; i++ {
